@@ -198,6 +198,11 @@ func (r *StoreRef) quietLocked(why *string) bool {
 		*why = fmt.Sprintf("loads running spawn=%d exit=%d", c("sync.spawn")+r.DirectLoad, c("repl.load.exit"))
 		return false
 	}
+	// a Load may return before the workers it started (or that an earlier call started for the same hashes) are done
+	if c("repl.enqueue") != c("repl.slot.wait") || c("repl.slot.wait") != c("repl.dequeued")+c("repl.slot.fail") || c("repl.dequeued") != c("repl.done") {
+		*why = fmt.Sprintf("replicator workers running enqueued=%d wait=%d dequeued=%d fail=%d done=%d", c("repl.enqueue"), c("repl.slot.wait"), c("repl.dequeued"), c("repl.slot.fail"), c("repl.done"))
+		return false
+	}
 	if c("peerjoin.spawn") != c("peerjoin.end") {
 		*why = "head exchange running"
 		return false
